@@ -123,6 +123,19 @@ def run(chk):
                 crc = base64.b64encode(crc24(r2).to_bytes(3, "big"))
                 doc = s0[:am.start()] + am.group(1) + body + b"=" + crc + b"\n" + am.group(4) + s0[am.end():]
                 cases.append(("csread", [b"0", doc])); tags.append("substitute-behind-the-checksum")
+    # the checksum line itself: every shape that is not '=' and four base64 characters of three bytes, in the place of the line,
+    # in front of it, in the middle of the data; the document otherwise untouched (the signature would verify)
+    if am:
+        good = b"=" + am.group(3)
+        head, data, endl = s0[:am.start()] + am.group(1), am.group(2), b"\n" + am.group(4) + s0[am.end():]
+        dl = data.split(b"\n")
+        for bad in (good[:4] + b"=", good[:3] + b"==", good[:2] + b"===", b"=====", b"=ab", b"=abcde", b"= abc", b"=ab\rc", b"=a=bc", b"==abc", b"=ab=c",
+                    good[:4] + b"=\r", good + b"\r", good + b" ", b"=" + good, good[1:], good.lower(), good[:4] + b"-", good[:4] + b"_"):
+            for kr in (b"0", b"01", b"n", b"1"):
+                cases.append(("csread", [kr, head + data + bad + endl])); tags.append("malformed-checksum-line")
+                cases.append(("csread", [kr, head + data + bad + b"\n" + good + endl])); tags.append("malformed-checksum-line")
+                cases.append(("csread", [kr, head + b"\n".join(dl[:2] + [bad] + dl[2:]) + good + endl])); tags.append("malformed-checksum-line")
+                cases.append(("csread", [kr, (head + data + bad + endl).replace(b"\n", b"\r\n")])); tags.append("malformed-checksum-line")
     # splices of foreign text before, inside and after the armor
     foreign = b"Source: evil\nVersion: 9\n"
     body_at = s0.index(b"Source: hello")
@@ -173,11 +186,11 @@ def run(chk):
         kr = c[1][0]
         given = b"0" if kr == b"n" else b"1"
         if oracle.startswith("decoded "):
-            _, body, signer = oracle.split(" ")
+            _, body, signer, restlen = oracle.split(" ")
             mcases.append(("csmodel", [given, c[1][1], b"1", bytes.fromhex(body[1:]), b"0" if signer == "-" else b"1",
-                                       b"" if signer == "-" else bytes.fromhex(signer[1:])]))
+                                       b"" if signer == "-" else bytes.fromhex(signer[1:]), restlen.encode()]))
         else:
-            mcases.append(("csmodel", [given, c[1][1], b"0", b"", b"0", b""]))
+            mcases.append(("csmodel", [given, c[1][1], b"0", b"", b"0", b"", b"0"]))
     model = chk.run_model(mcases)
     keep = list(range(len(mcases)))
     chk.compare("reader-vs-model-with-library-oracles", [mcases[k] for k in keep], [o3[k][1] for k in keep], [model[k] for k in keep],
@@ -205,9 +218,7 @@ def run(chk):
         if kr != b"n" and im.startswith("ok") and armor_damaged(c[1][1]):
             why = "reading succeeded although the signature's armor is damaged (its CRC-24 line does not match its data)"
         if kr != b"n" and im.startswith("ok signer") and armor_crc_line_malformed(c[1][1]):
-            chk.violate({"kind": "property", "class": "armor-crc-line-malformed", "case": lib.show_case(c), "impl": im[:300],
-                         "explanation": "reading succeeded although the checksum line of the signature armor is malformed (the armor reader of golang.org/x/crypto skips such a line)"})
-            continue
+            why = "reading succeeded although the checksum line of the signature armor is malformed (the armor reader of golang.org/x/crypto skips such a line)"
         if tag == "unsigned" and "signer=x" in im:
             why = "a signer is reported for unsigned input"
         if kr == b"n" and "signer=x" in im:
@@ -257,6 +268,27 @@ def run(chk):
         if len(parts) != 2 or parts[0].startswith("ok signer") or parts[1] != want:
             chk.violate({"kind": "property", "case": lib.show_case(("csafterfail", [c[1][0], b"<signed document, then a read error>", c[1][2][:300]])), "impl": got[:900], "expected_second": want[:600],
                          "explanation": "a read whose source failed half-way succeeded, or the read after it was not judged on its own input (something of the failed read was left behind)"})
+    # the armor check on its own (control.armorChecksumLineOK through the verif-tagged hook against ARM.armor_ok), base64 on one
+    # quantum of four characters (encoding/base64 against ARM.decode4: all strings over fourteen characters), and the checksum
+    # line the library writes (armor.Encode against ARM.checksum_line: CRC-24 and base64 of its three bytes)
+    LINES = [b"-----BEGIN PGP SIGNATURE-----", b"", b"=LwA9", b"=LwA=", b"=Lw==", b"iQEz", b"Version: x", b"=ab", b"=abcd\r", b"-----END PGP SIGNATURE-----",
+             b"=a\rbc", b"=====", b"\r", b"=LwA9\r", b"-----BEGIN PGP SIGNED MESSAGE-----", b" ", b"=L-A9"]
+    ac = [("armorok", [d]) for d in sorted({c[1][1] for c in cases})[:chk.n(800, 8000)]]
+    for _ in range(chk.n(4000, 80000)):
+        ac.append(("armorok", [rng.choice([b"\n", b"\n", b"\r\n"]).join(rng.choice(LINES) for _ in range(rng.randrange(0, 9)))]))
+    ai, am_ = chk.run_both(ac)
+    chk.compare("armor-checksum-line-check-vs-model", ac, ai, am_, nontrivial=lambda c, r: b"=" in c[1][0], spec=False)
+    import itertools
+    bc = [("b64dec4", [bytes(q)]) for q in itertools.product(b"Az09+/=\r\n -_@\xff", repeat=4)]
+    bi, bm = chk.run_both(bc)
+    chk.compare("base64-quantum-vs-model", bc, bi, bm, nontrivial=lambda c, r: r != "err", spec=False)
+    cc = [("armorcrc", [bytes([v])]) for v in range(256)] + [("armorcrc", [b""])]
+    cc += [("armorcrc", [bytes(rng.randrange(256) for _ in range(rng.randrange(0, 400)))]) for _ in range(chk.n(400, 8000))]
+    ci, cm = chk.run_both(cc)
+    chk.compare("written-checksum-line-vs-model", cc, ci, cm, nontrivial=lambda c, r: True, spec=False)
+    for c, r in zip(cc, ci):
+        if crc24(c[1][0]) != int.from_bytes(__import__("base64").b64decode(bytes.fromhex(r[1:])[1:]), "big"):
+            raise lib.Infra("the driver's own CRC-24 disagrees with the library's: %r" % r)
     # sanity of the streams: the unmodified signed documents must be accepted with their signer's keyring
     good = sum(1 for t, (o, im, d) in zip(tags, o3) if t == "keyrings" and im.startswith("ok signer=x"))
     if good == 0:
